@@ -122,7 +122,7 @@ CHECKS = {
         "technique": "property-based testing (rapid): keys constructed from generated primes/scalars, round trip through the client's register builders, message transport in three encodings and the extraction accessors, oracle key.Equal; accessor totality on generated and degraded decodable objects",
         "level_text": "Generated-input exploration: RSA keys from two generated primes and ECDSA scalars on the four curves (boundary scalars included) are registered in every format the builders accept, carried through a request and a Get response at every version in binary, XML and JSON, and extracted with each accessor; the extracted key must be mathematically equal to the original (Equal), PEM accessors must re-parse to an equal key. Second half: every accessor on every decodable Get response payload (generated objects with 0..3 sub-elements removed or re-typed) must return a value or an error, never panic.",
         "level_note": "RSA moduli 1024..2064 bits (Go's crypto/rsa refuses smaller keys), public exponents {3,17,257,65537}; prime search is deterministic from the drawn bytes; trusts crypto/* for Equal and parsing.",
-        "jobs": [rapid("codec", "TestC14Keys", 250, 2000), rapid("codec", "TestC14Symmetric", 2000, 20000, shards=4), rapid("codec", "TestC14Accessors", 8000, 50000), rapid("codec", "TestC14AccessorPairs", 300, 3000, shards=4)],
+        "jobs": [rapid("codec", "TestC14Keys", 250, 2000), rapid("codec", "TestC14Symmetric", 2000, 20000, shards=4), rapid("codec", "TestC14Accessors", 8000, 50000), rapid("codec", "TestC14AccessorPairs", 300, 3000, shards=4), rapid("codec", "TestC14ReusedVariable", 120, 1200, shards=4)],
         "assumptions": ["the private-key pipeline is observed at the library's accessors, as the property states"],
     },
     "C15": {
@@ -146,7 +146,7 @@ CHECKS = {
         "technique": "exhaustive enumeration by the same generator (all 2^24 tags, all registered enumeration values and mask flags) plus rapid-drawn unregistered probes, against pinned tables and inverse-map/round-trip oracles",
         "level_text": "The registry is finite, so it is enumerated completely (exhaustive: true): live tables == pinned tables in both directions, name->number and number->name mutually inverse within each scope, every entry written by name in XML/JSON/text and read back as the same number, typed MarshalText/UnmarshalText for every enumeration Go type reachable from the message types; unregistered numbers are written in hex and read back (rapid).",
         "level_note": "Trusts the pinned snapshot pins/data/{tags,enums,masks}.json (292 tags 0x420001..0x420124 dense, 47 named enumerations with 601 values, 2 masks with 22 flags; cross-checked against the OASIS vector corpus in C04).",
-        "jobs": [plain("codec", "TestC17Registry"), rapid("codec", "TestC17Unregistered", 5000, 200000, shards=4), rapid("codec", "TestC17RuntimeRegistration", 3000, 30000, shards=4)],
+        "jobs": [plain("codec", "TestC17Registry"), rapid("codec", "TestC17Unregistered", 5000, 200000, shards=4), rapid("codec", "TestC17RuntimeRegistration", 3000, 30000, shards=4), rapid("codec", "TestC17HeldTexts", 3000, 60000, shards=4)],
         "assumptions": ["pinned tables were reviewed against the KMIP 1.4 specification tables at pin time"],
     },
     "C02": {
